@@ -39,6 +39,7 @@ def res_fields(F, root):
 
 
 def run(F, R, tier):
+    _round6(F, R)
     en = F.body(EI)
     cr = F.body("graph::ModuleGraphErrorIterator::check_resolution")
     # ---------------- C02-a ------------------------------------------------
@@ -260,3 +261,20 @@ def run(F, R, tier):
     vals = return_values(F, vd)
     R.ob("C02-f", "validate() fails iff the error listing is non-empty", any(ctor_of(v) == "std::result::Result::Err" for v in vals) and any(ctor_of(v) == "std::result::Result::Ok" for v in vals) and any(n.get("k") == "MethodCall" and n["name"] == "next" for n in vd["_nodes"]),
          "validate() shape changed", vd["file"])
+
+
+def _round6(F, R):
+    # C02-c: the in-place missing-module lookup is made for every edge kind when
+    # dynamic edges are followed (next() drops Missing entries then and relies on it)
+    cr = F.body("graph::ModuleGraphErrorIterator::check_resolution")
+    gets = [n for n in cr["_nodes"] if n.get("k") == "MethodCall" and n["name"] == "get" and field_of(n["recv"]) == "module_slots"]
+    R.floor("C02-c module_slots lookups in check_resolution (round 6)", len(gets), 1)
+    is_dyn_lids = {p.get("lid") for p in cr["body"]["params"] if p.get("name") == "is_dynamic" or (F.tystr(p.get("t")) == "bool")}
+    for n in gets:
+        g = guards_at(F, n)
+        tab = guard_table(g, [("is_dynamic", lambda y: peel_value(y).get("res") == "local" and peel_value(y).get("lid") in is_dyn_lids),
+                              ("follow_dynamic", lambda y: field_of(y) == "follow_dynamic")])
+        ok = all(reach == f for (d, f), reach in tab.items())
+        R.ob("C02-c", "the in-place missing-module lookup runs for static and dynamic edges alike whenever dynamic edges are followed", ok,
+             "the lookup of the target's slot in check_resolution also depends on `is_dynamic` (reachability table %s): with follow_dynamic a statically imported missing module is reported nowhere (next() suppresses Missing entries and relies on this lookup)" % sorted(tab.items()),
+             where(n), key="C02|C02-c|missing-lookup-depends-on-is_dynamic")
